@@ -219,12 +219,15 @@ def option_check(case):
 
 
 # ------------------------------------------------------------------ entry points
+PLACES = ("plain", "symlink", "uuid+decoy", "relative")
+
+
 def entry_cases(tier, seed):
-    return [(present, handed) for present in ("bin", "cbin", "both") for handed in ("bin", "cbin", "meta")]
+    return [(present, handed, place) for present in ("bin", "cbin", "both") for handed in ("bin", "cbin", "meta") for place in PLACES]
 
 
 def entry_check(case):
-    present, handed = case
+    present, handed, place = case
     if handed != "meta" and handed not in (present, ) and present != "both":
         return Res([], o="n/a", nt=False, tr=0)          # the path handed over must exist on disk
     d = synth.proc_scratch(clean=True)
@@ -235,7 +238,35 @@ def entry_check(case):
     elif present == "bin":
         os.unlink(fcbin)
         os.unlink(fcbin.replace(".cbin", ".ch"))
-    path = {"bin": fbin, "cbin": fcbin, "meta": fbin.replace(".bin", ".meta")}[handed]
+    fmeta = fbin.replace(".bin", ".meta")
+    cwd = os.getcwd()
+    if place == "symlink":
+        # the data files live in a store under object names (datalad / git-annex layout) together with an unrelated metadata file of that name;
+        # the session folder holds symbolic links to them next to the regular .meta / .ch files
+        store = os.path.join(d, "store", "objects")
+        os.makedirs(store)
+        for k, f in enumerate((fbin, fcbin)):
+            if os.path.exists(f):
+                tgt = os.path.join(store, "obj_%04d%s" % (k, os.path.splitext(f)[1]))
+                os.rename(f, tgt)
+                os.symlink(tgt, f)
+                other = [ln for ln in open(fmeta).read().splitlines()]
+                with open(os.path.join(store, "obj_%04d.meta" % k), "w") as fh:
+                    fh.write("\n".join(("nSavedChans=7" if ln.startswith("nSavedChans=") else ln) for ln in other) + "\n")
+    elif place == "uuid+decoy":
+        # dataset names carrying a UUID, next to a UUID-less metadata file of another acquisition (other gains, another sample count)
+        uid = "a1b2c3d4-0000-4000-8000-00000000abcd"
+        for f in (fbin, fcbin, fcbin.replace(".cbin", ".ch"), fmeta):
+            if os.path.exists(f):
+                root, ext = os.path.splitext(f)
+                os.rename(f, "%s.%s%s" % (root, uid, ext))
+        with open(fmeta, "w") as fh:
+            fh.write(synth.meta_text(synth.meta_items("NP2.1", _sites(2), 17, vrange=0.62, maxint=2048)))
+        fbin, fcbin, fmeta = ["%s.%s%s" % (os.path.splitext(f)[0], uid, os.path.splitext(f)[1]) for f in (fbin, fcbin, fmeta)]
+    path = {"bin": fbin, "cbin": fcbin, "meta": fmeta}[handed]
+    if place == "relative":
+        os.chdir(os.path.dirname(path))
+        path = os.path.basename(path)
     v = []
     ref = refmodel.calibrated(data, synth.ref_s2v("NP2.1", "ap", 2, 1))
     try:
@@ -252,6 +283,11 @@ def entry_check(case):
         sr.close()
     except Exception as e:
         v.append(("entry:exc:%s-only:%s" % (present, handed), "files on disk: %s; Reader(%s) raised %s: %s" % (present, os.path.basename(path), type(e).__name__, e)))
+    finally:
+        os.chdir(cwd)
+    if place != "plain":
+        v = [(k + ":" + place, "[%s] %s" % ({"symlink": "data files are symbolic links into a store folder holding an unrelated metadata file", "uuid+decoy": "UUID in the dataset names, a UUID-less metadata file of another acquisition in the same folder",
+                                              "relative": "relative path (working directory = the session folder)"}[place], m)) for k, m in v]
     return Res(v, o=case, tr=1)
 
 
